@@ -20,6 +20,7 @@ envkit.install()
 # C14 keeps the REAL new_socket_connection and stubs one level lower: the socket module it uses
 _srv.new_socket_connection = _utils.new_socket_connection
 FLAGS = FlagParser.initialize(['--threadless'])
+FLAGS_POOL = FlagParser.initialize(['--threadless', '--enable-conn-pool'])
 
 CALLS = []
 
@@ -113,7 +114,11 @@ def target(h0: int, h1: int, h2: int, port: int, p0: int, p1: int) -> bool:
         if port != CFG['portval']:
             return skip()
         port = CFG['portval']
-    authority = (b'u:p@' if userinfo else b'') + host + ((b':' + str(port).encode()) if has_port else b'')
+    spell = CFG.get('portspell')
+    if spell is not None:
+        # the port as the client spells it (leading zeros are legal digits of a port): names this number
+        port = int(spell)
+    authority = (b'u:p@' if userinfo else b'') + host + ((b':' + (spell.encode() if spell is not None else str(port).encode())) if has_port else b'')
     if form == 'abs':
         tgt = b'http://' + authority + path
         line = b'GET ' + tgt + b' HTTP/1.1\r\nHost: x\r\n\r\n'
@@ -146,7 +151,12 @@ def target(h0: int, h1: int, h2: int, port: int, p0: int, p1: int) -> bool:
     del CALLS[:]
     with concrete():
         env = envkit.new_env()
-        h, cs = envkit.make_handler(FLAGS, env)
+        if CFG.get('pool'):
+            from proxy.core.connection import UpstreamConnectionPool
+            h, cs = envkit.make_handler(FLAGS_POOL, env)
+            h.upstream_conn_pool = UpstreamConnectionPool()      # what Threadless hands to every work with --enable-conn-pool
+        else:
+            h, cs = envkit.make_handler(FLAGS, env)
     cs.inq.append(line)
     try:
         td = run(h.handle_events([cs.fd], []))
@@ -338,6 +348,15 @@ def obligations(tier):
     for pv in (1, 80, 443, 65535):
         obs.append({'name': 'target.abs.name1.portval%d' % pv, 'fn': 'target',
                     'cfg': {'form': 'abs', 'host': 'name1', 'port': True, 'plen': 0, 'portval': pv}, 'timeout': 120})
+    for hk in ('name1', 'v4', 'v6a', 'v6c'):
+        for form in ('abs', 'connect'):
+            obs.append({'name': 'target.pool.%s.%s' % (form, hk), 'fn': 'target',
+                        'cfg': {'form': form, 'host': hk, 'port': True, 'plen': 0, 'userinfo': False, 'pool': True, 'portval': 8080},
+                        'timeout': 300})      # (the pool hashes (host, port): a symbolic port would be enumerated value by value)
+    for form in ('abs', 'connect'):
+        for sp in ('0080', '08080', '00443', '065535', '0000001'):
+            obs.append({'name': 'target.%s.name1.portspell%s' % (form, sp), 'fn': 'target',
+                        'cfg': {'form': form, 'host': 'name1', 'port': True, 'plen': 0, 'userinfo': False, 'portspell': sp}, 'timeout': 120})
     obs.append({'name': 'resolved.two_connections', 'fn': 'resolved', 'cfg': {}, 'timeout': 300})
     for kind in DAMAGED:
         if kind == 'spacehost':
@@ -350,7 +369,7 @@ META = {
     'bounds': {
         'quick': 'forms: absolute http://, scheme-less //, CONNECT authority; hosts: reg-names with 1-3 symbolic [a-z0-9] characters, IPv4 '
                  'with 2 symbolic digits, 6 IPv6 spellings (::x, x::1, 2001:db8::x:1, ::ffff:1.2.3.x, full form, ::) with a symbolic hex digit; '
-                 'port absent or symbolic 1..65535 rendered with str(); optional userinfo u:p; path of 0..2 symbolic visible characters; '
+                 'port absent or symbolic 1..65535 rendered with str() (plus 5 spellings with leading zeros); also with --enable-conn-pool; optional userinfo u:p; path of 0..2 symbolic visible characters; '
                  'with a resolve_dns plugin: two successive connections of one worker to the same host, ports symbolic, explicit/defaulted, http/CONNECT; '
                  'damaged: missing bracket, non-numeric/empty/negative/over-range/zero port, empty host, unknown scheme',
         'thorough': 'all combinations of form x host x port x path x userinfo',
